@@ -36,7 +36,7 @@ def bounds(tier):
 
 def goals(tier):
     return ["closure-reached", "origin-spanning-feature", "past-the-end-location-produced", "negative-k", "k-larger-than-n",
-            "whole-length-source", "minus-strand-join", "all-n-states-reached", "k-thousands-of-turns"]
+            "whole-length-source", "minus-strand-join", "all-n-states-reached", "k-thousands-of-turns", "operand-unchanged-checked"]
 
 
 def word(n):
@@ -218,6 +218,11 @@ def run_unit(unit, st, tier):
                     if kk not in seen:
                         seen[kk] = (out, r2, hist + [[op, k]])
                         nxt.append(kk)
+            # rotating must not touch its operand: after every operator was applied to this state it still observes the same
+            if snapshot.key(observe(rec, n)) != key:
+                st.violation("rotate", "operand-modified-by-rotation", dict(n=n, table_slice=[s, nsl], history=hist, op=">>", k=1),
+                             "operand unchanged", snapshot.diff(json.loads(key), observe(rec, n)))
+            st.goal("operand-unchanged-checked")
             if len(seen) > n:
                 break
         if len(seen) > n:
